@@ -215,6 +215,13 @@ def run(p: Program, rep: Report, tier: str) -> None:
         only_w = fw - fa
         only_a = fa - fw
         sanc = GATEWAY + SANCTIONED.get((mod, f.qualname), [])
+        # the return-shape sanction is for code that talks to the gateway (application callables, generators, coroutines
+        # awaiting the channel); a plain accessor that takes no gateway object must return the same shape on both sides
+        def _gw(fi) -> bool:
+            return bool(set(fi.params) & {"environ", "start_response", "scope", "receive", "send"}) or fi.is_generator() or any(_gw(n_) for n_ in fi.nested.values())
+        gatewayish = _gw(f) or _gw(g) or g.is_async != f.is_async
+        if not gatewayish:
+            sanc = [x for x in sanc if not x[1].startswith("^\\('return', ")]
         unexplained_w = _filter(only_w, "wsgi", sanc)
         unexplained_a = _filter(only_a, "asgi", sanc)
         if not unexplained_w and not unexplained_a:
